@@ -190,7 +190,8 @@ class Verifier(Stmts):
         st.assume(list_len(lt, L) == list_len(klt, ks.z))
         st.assume(z3.ForAll([i], z3.Implies(z3.And(0 <= i, i < list_len(lt, L)),
                   list_get(lt, L, i) == opt_val(opt(t.v), z3.Select(D, list_get(klt, ks.z, i)))), patterns=[list_get(lt, L, i)]))
-        return [(st, V(IterT(), V(lt, L)))]
+        r_ = V(IterT(), V(lt, L)); r_.src = ('dict-values', t, D)
+        return [(st, r_)]
     def bm_dict_items(self, st, r, args, kw, node):
         t = r.t
         if t.k == ANY: return [(st, V(IterT(), []))]
